@@ -200,6 +200,14 @@ func opMarshal(args []string) string {
 		s += fmt.Sprintf(" !! C12:writes=%d", writes)
 	} else if int(n) != len(frame) || len(frame) < 4 || int(be32(frame)) != len(frame) {
 		s += " !! C12:length-mismatch"
+	} else if len(frame) >= 16 {
+		// "exactly one frame": the octets written are THIS pdu's frame — its command_id (from the type's tag) and its
+		// sequence number head them; anything else in front means octets of an earlier (failed) call reached the destination
+		idTag := reflect.TypeOf(p).Elem().Field(0).Tag.Get("id")
+		want, _ := strconv.ParseUint(idTag, 16, 32)
+		if uint32(want) != be32(frame[4:]) || int32(be32(frame[12:])) != pdu.ReadSequence(p) {
+			s += " !! C12:written-octets-do-not-start-with-this-pdus-header"
+		}
 	}
 	return s
 }
